@@ -1,9 +1,26 @@
 import Driver.Util
-/-! driver ops of C04 (prefix `c04.`); filled in by the C04 work -/
+import Model.Parse
+/-! driver ops of C04 (prefix `c04.`) -/
 namespace Driver
 open Model
 
+def showReadResult : ReadResult → String
+  | .unsupported => "unsupported"
+  | .exc e => "exc " ++ e
+  | .message counts errs =>
+    "msg counts=" ++ ",".intercalate (counts.map toString) ++ " errs=" ++
+      (if errs.isEmpty then "-" else ";".intercalate (errs.map fun (e, o) => e ++ "@" ++ toString o))
+
 def handleC04 : List String → Option String
+  | ["c04.ttl", t] => do
+    let t ← ofHex t
+    some (match ttlFromText t with
+      | .ok v => "ok " ++ toString v
+      | .error e => "err " ++ e)
+  | ["c04.read", w, c, it, qo] => do
+    let w ← ofHex w
+    let c ← parseBool c; let it ← parseBool it; let qo ← parseBool qo
+    some (showReadResult (readMsg w { cont := c, ignoreTrailing := it, questionOnly := qo }))
   | _ => none
 
 end Driver
